@@ -190,6 +190,19 @@ class Gen:
             self.frames.append(i)
         self.add({"op": "http_collect", "name": name})
 
+    def op_cat_follow_pulse(self):
+        """GET /?follow=<ms>&limit=N held open over heartbeats: pulses are markers, they never use up the limit"""
+        k = self.r.randint(1, 3)
+        name = "bg%d" % len(self.ops)
+        # the limit is beyond what the history holds, so the live phase has to supply the rest
+        n = len(self.frames) + len(self.ctxs) + k
+        self.add({"op": "http_bg", "name": name, "method": "GET", "target": "/?follow=40&limit=%d" % n, "sse": self.r.random() < 0.3})
+        self.add({"op": "http_collect", "name": "no-such-connection", "settle_ms": 130})   # a few heartbeats pass
+        for _ in range(k + self.r.randint(0, 2)):
+            i = self.add({"op": "http", "method": "POST", "target": "/t", "body": b"", "meta": None})
+            self.frames.append(i)
+        self.add({"op": "http_collect", "name": name})
+
     def op_cas(self):
         k = self.r.random()
         if k < 0.4:
@@ -250,7 +263,7 @@ class Gen:
 
 
 WEIGHTS = {
-    "C13": {"append": 30, "get": 14, "cat": 14, "head": 8, "cas": 8, "import": 8, "misc": 8, "head_follow": 3, "cat_follow_bg": 3, "register": 2},
+    "C13": {"append": 30, "get": 14, "cat": 14, "head": 8, "cas": 8, "import": 8, "misc": 8, "head_follow": 3, "cat_follow_bg": 3, "cat_follow_pulse": 2, "register": 2},
     "C10": {"append": 40, "cas": 30, "get": 5, "cat": 8, "head": 4, "import": 3, "misc": 3, "cat_follow_bg": 5},
     "C06": {"append": 35, "cat": 15, "head": 12, "head_follow": 12, "cat_follow_bg": 10, "register": 6, "get": 4, "import": 4},
 }
@@ -483,6 +496,9 @@ def compare(trace, model):
                     if m0.get("topic_filter") is not None and f["topic"] != m0["topic_filter"]:
                         continue
                     want.append(cf(f))
+            lim = re.search(r"[?&]limit=(\d+)(&|$)", trace[start]["op"]["target"])
+            if lim:
+                want = want[:int(lim.group(1))]
             if real != want:
                 props = ["C06", "C13"] if any(m0.get("sub_ctx") and f["ctx"] != m0["sub_ctx"] for f in real) else ["C13", "C03"]
                 out.append({"i": i, "kind": "follow", "props": props, "observable": True, "target": trace[start]["op"]["target"],
